@@ -84,6 +84,29 @@ def generate(rng, tier):
             hd["hookexc"] = "kbd"       # half of them raise a BaseException that is not an Exception
         out.append({"flat": flat, "nested": group(rng, flat, depth=rng.choice([1, 2, 3]))})
     out += _gen_remove_pairs(rng, 60 * n)
+    out += _gen_enter_fault_pairs(rng, 40 * n)
+    return out
+
+
+def _gen_enter_fault_pairs(rng, n):
+    """A doer whose enter context raises, listed flat after others or grouped with them: the doers entered before it
+    are force-closed in the same order (and nothing else changes)."""
+    out = []
+    for _ in range(n):
+        flat = sc.gen_static(rng, n_leaves=rng.randint(3, 6), nest_depth=0, faults=False, tocks="dyadic", limit_p=0.3)
+        ids = flat["doers"]
+        c = rng.choice(ids[1:])
+        sc_ = flat["defs"][str(c)]["script"]
+        sc_[0] = {"es": [], "out": ["x"]}
+        del sc_[1:]
+        lo = rng.randint(0, ids.index(c) - 1)
+        hi = rng.randint(ids.index(c), len(ids) - 1)
+        nested = copy.deepcopy(flat)
+        g = max(int(i) for i in flat["defs"]) + 1
+        nested["defs"][str(g)] = {"kind": "nest", "tock": 0.0, "always": False, "kids": ids[lo:hi + 1]}
+        nested["doers"] = ids[:lo] + [g] + ids[hi + 1:]
+        flat["fault_pair"] = nested["fault_pair"] = True
+        out.append({"flat": flat, "nested": nested})
     return out
 
 
@@ -145,7 +168,7 @@ def oracle(case, obs):
         why = sc.clock_oracle(o)
         if why:
             return why
-    hooky = sc.outside_model(case["flat"])
+    hooky = sc.outside_model(case["flat"]) or bool(case["flat"].get("fault_pair"))
     if (a["raised"] != "none" or b["raised"] != "none") and not (hooky and a["raised"] == b["raised"] and not a["raised"].startswith("escape")):
         return f"run raised: flat {a['raised']}, nested {b['raised']}"
     if a["events"] != b["events"]:
